@@ -290,3 +290,33 @@ Proof.
   - intros m [H|[H|[H|[]]]]; subst m; discriminate.
   - vm_compute. discriminate.
 Qed.
+
+(** the first-to-last flag is about the per-operation middlewares: the strict part of every trace is the same with and
+    without it *)
+Lemma strict_only_trace_ignores_first_to_last : forall fw sm,
+  request_trace fw true [] (Some sm) = request_trace fw false [] (Some sm).
+Proof. intros fw sm. destruct fw; reflexivity. Qed.
+
+Lemma all_pass_strict_suffix : forall fw ftl ms sm,
+  (forall m, In m ms -> m = Pass) ->
+  exists pre, request_trace fw ftl ms (Some sm) = pre ++ strict_chain sm.
+Proof.
+  intros fw ftl ms sm Hp.
+  assert (Hw : forall order inner, all_pass order -> exists pre, wrap_loop EMw order inner = pre ++ inner).
+  { intros order. induction order as [|[i m] r IH] using rev_ind; intros inner Ha.
+    - exists []. reflexivity.
+    - unfold wrap_loop. rewrite fold_left_app. cbn [fold_left].
+      destruct (IH inner) as [pre Hpre]; [intros x Hx; apply Ha; apply in_or_app; left; exact Hx|].
+      unfold wrap_loop in Hpre. rewrite Hpre. unfold apply_mw. cbn [fst snd].
+      assert (Hm : snd (i, m) = Pass) by (apply Ha; apply in_or_app; right; left; reflexivity).
+      cbn [snd] in Hm. subst m. exists (EMw i :: pre). reflexivity. }
+  assert (Hs : forall order inner, all_pass order -> exists pre, seq_loop EMw order inner = pre ++ inner).
+  { intros order. induction order as [|[i m] r IH]; intros inner Ha.
+    - exists []. reflexivity.
+    - cbn [seq_loop fst snd]. assert (Hm : snd (i, m) = Pass) by (apply Ha; left; reflexivity). cbn [snd] in Hm. subst m.
+      destruct (IH inner) as [pre Hpre]; [intros x Hx; apply Ha; right; exact Hx|]. rewrite Hpre. exists (EMw i :: pre). reflexivity. }
+  pose proof (indexed_all_pass ms Hp) as Hi.
+  assert (Hr : all_pass (rev (indexed ms))) by (intros x Hx; apply Hi; apply in_rev; exact Hx).
+  unfold request_trace. destruct fw; try (unfold nethttp_chain; destruct ftl; [apply Hw; exact Hr|apply Hw; exact Hi]); try (apply Hs; exact Hi).
+  exists []. reflexivity.
+Qed.
